@@ -1,5 +1,6 @@
 import RSVerif.Model.Resp
 import RSVerif.Lemmas.Resp
+import RSVerif.Properties.C10Models
 /-
 C10 — RESP codec round-trips, rejects malformed input and counts bytes exactly.
 Property theorems only (helper lemmas live in RSVerif.Lemmas.Resp).
